@@ -371,4 +371,51 @@ class OtherEntryPoints(Sub):
         return kind not in ("date/date", "time/time"), kind
 
 
-SUBS = [Phrases(), Direction(), InWords(), LocaleTokens(), OtherEntryPoints()]
+BIG_COUNTS = [1001, 1011, 10000, 100000, 500000, 999999, 10**6, 10**6 + 1, 1234567, 2 * 10**6, 3 * 10**6, 10**7, 11 * 10**6, 10**8, 142857142]
+
+
+class LargeCounts(Sub):
+    name = "large_counts"
+    kind = "enum"
+    backends = ("py",)
+    n = {"quick": 0, "thorough": 0}
+    shards = {"quick": 3, "thorough": 9}
+    distinct_by_construction = True
+    rule = ("every locale x {years, months, weeks} x counts beyond the 0..1000 sweep that CLDR plural rules single out (powers of ten, multiples of 10^6, their "
+            "neighbours, the largest week count of a Duration) x in_words() and format_diff() in its four now/absolute combinations: a non-empty string without "
+            "placeholders that carries the count, never an exception; every case non-trivial")
+
+    def exhaustive(self, tier):
+        return True
+
+    def cases(self, ctx, shard, nshards):
+        for i, loc in enumerate(LOCALES):
+            if i % nshards == shard:
+                for unit in ("years", "months", "weeks"):
+                    yield {"locale": loc, "unit": unit}
+
+    def check(self, case, ctx):
+        loc, unit = case["locale"], case["unit"]
+        n = 0
+        for c in BIG_COUNTS:
+            for sg in (1, -1):
+                try:
+                    d = pendulum.duration(**{unit: sg * c})
+                except OverflowError:
+                    continue
+                outs = [("in_words", d.in_words(locale=loc))]
+                for is_now in (True, False):
+                    for absolute in (True, False):
+                        if sg < 0:
+                            continue    # format_diff() takes the (absolute-valued, flagged) Interval that diff() builds; a raw negative Duration is not its input
+                        outs.append((f"format_diff(is_now={is_now}, absolute={absolute})", pendulum.format_diff(d, is_now, absolute, loc)))
+                for tag, s in outs:
+                    n += 1
+                    well_formed(f"{tag}[{loc}] of {sg * c} {unit}", s)
+                    req(str(c) in s, f"{tag}[{loc}]: the phrase does not carry the count", got=s, count=c, unit=unit)
+        ctx.cache["n"] = ctx.cache.get("n", 0) + n
+        ctx.cache["evidence_extra"] = {"inner_evaluations": ctx.cache["n"], "inner_nontrivial": ctx.cache["n"]}
+        return True, loc
+
+
+SUBS = [Phrases(), Direction(), InWords(), LocaleTokens(), OtherEntryPoints(), LargeCounts()]
